@@ -5,7 +5,8 @@ Case format (JSON):
    "funcs": [{"name": "f0",
               "decs": [{"kind": "event"|"mqtt"|"webhook", "key": str, "filter": F|None, "kwargs": {..}|None}],
               "acts": [{"op": "sleep", "d": 2.0} | {"op": "fire", "type": str, "kw": {..}, "ctx": "none"|"occ"|{"val": v}}
-                       | {"op": "set"} | {"op": "call"}]}],
+                       | {"op": "set"}
+                       | {"op": "call", "svc": "none"|"opt"|"only", "form": "direct"|"call", ["return_response": b], ["blocking": b]}]}],
    "sched": [{"wait": s, "settle": bool, "kind": "event", "key": str, "data": {..}}
              | {.., "kind": "mqtt", "topic": str, "payload": str, "qos": int, "retain": bool}
              | {.., "kind": "webhook", "key": str, "json": {..} | "form": [[k, v], ..]}],
@@ -476,20 +477,42 @@ def gen_acts(rng, fire_types, long_sleep):
     acts = []
     for _ in range(rng.choice([0, 1, 2, 3, 4])):
         r = rng.random()
-        if r < 0.35:
+        if r < 0.3:
             acts.append({"op": "sleep", "d": rng.choice([0, 0.5, 2.0, 30.0, 100.0] if long_sleep else [0, 0.5])})
-        elif r < 0.7:
+        elif r < 0.6:
             kw = {k: gen_value(rng) for k in rng.sample(["kx", "ky", "ka"], rng.choice([0, 1, 2]))}
             typ = rng.choice(fire_types)
             ctx = rng.choice(["none", "none", "none", "occ", {"val": rng.choice(["cstr", 5, None])}])
             if isinstance(ctx, dict) and typ != "pv_out" and rng.random() < 0.9:
                 ctx = "none"  # a non-Context `context` in the data of a triggering event is D81 territory: keep it rare
             acts.append({"op": "fire", "type": typ, "kw": kw, "ctx": ctx})
-        elif r < 0.85:
+        elif r < 0.72:
             acts.append({"op": "set"})
         else:
-            acts.append({"op": "call"})
+            acts.append(gen_call(rng))
     return acts
+
+
+def gen_call(rng):
+    """a call to one of the natively registered test services (SupportsResponse.NONE / OPTIONAL / ONLY), via
+    `pvtest.svc_x(...)` or `service.call("pvtest", "svc_x", ...)`, with/without return_response / blocking; only the
+    combinations Home Assistant accepts"""
+    svc = rng.choice(["none", "opt", "only", "only"])
+    act = {"op": "call", "svc": svc, "form": rng.choice(["direct", "call"])}
+    if svc == "none":
+        rr = rng.choice([None, None, False])
+        bl = rng.choice([None, True, False])
+    elif svc == "opt":
+        rr = rng.choice([None, True, False])
+        bl = rng.choice([None, True]) if rr else rng.choice([None, True, False])
+    else:
+        rr = rng.choice([None, None, True])
+        bl = rng.choice([None, True])
+    if rr is not None:
+        act["return_response"] = rr
+    if bl is not None:
+        act["blocking"] = bl
+    return act
 
 
 def tail_of(case):
@@ -623,7 +646,7 @@ class EventStream(FlowStream):
     rule = ("sets of 1-3 generated functions with 1-3 @event_trigger decorators each (shared and distinct event types, with and "
             "without filter expressions over the event data incl. missing names and type errors, with and without decorator "
             "kwargs, duplicates of the same decorator), bodies that sleep 0..100 s, fire further events (some of them trigger "
-            "types of later functions = chains, with/without explicit context=), set states and call services; schedules of "
+            "types of later functions = chains, with/without explicit context=), set states and call natively registered services of all three SupportsResponse kinds (both call forms, with/without return_response/blocking; the context recorded is ServiceCall.context as seen by the service); schedules of "
             "2-12 events fired back-to-back, after a settle, or 0.5-40 virtual seconds apart so that bursts overlap sleeping "
             "runs; both subsystems; non-trivial = at least two deliveries and two runs; distinct by the whole case")
 
